@@ -54,6 +54,8 @@ def score_list(rng, n, style):
     if style == "distinct":
         vals = rng.sample(range(-40, 40), n)
         return [Fraction(v, 4) for v in vals]
+    if style == "uint":         # non-negative integers over the whole uint8 range, 0 included (unsigned dtypes: -x wraps, x - y wraps)
+        return [Fraction(rng.choice([0, rng.randint(0, 6), rng.randint(100, 140), rng.randint(250, 255)])) for _ in range(n)]
     if style == "wide-int":     # integers spread over the whole int8 range (adjacent gaps may exceed 127)
         return [Fraction(rng.choice([rng.randint(-128, -90), rng.randint(-20, 20), rng.randint(90, 127)])) for _ in range(n)]
     raise ValueError(style)
@@ -81,6 +83,8 @@ def pick_dtype(rng, values):
     vals = [Fraction(v) for v in values]
     r = rng.random()
     ints = all(v.denominator == 1 for v in vals)
+    if ints and all(0 <= v <= 255 for v in vals) and any(v > 127 for v in vals):
+        return "uint8" if r < 0.7 else ("uint16" if r < 0.85 else "float64")
     if ints and all(-128 <= v <= 127 for v in vals) and r < 0.10:
         return "int8"
     if ints and r < 0.18:
